@@ -638,6 +638,7 @@ inductive Op where
   | addJob (pid : Nat) (st : PState)                      -- deprecated `add`
   | reportOne (i : Nat)                                   -- `get_mut(i).state_reported()`
   | ajs (pid : Nat) (result : PState) (inter : Bool) (name : Str)   -- deprecated `add_job_if_suspended`
+  | removeIfFirst (k : Nat) (p : RmPred) (report : Bool)  -- `remove_if` with a counting `FnMut` closure
   deriving Repr
 
 def step (s : JobList) : Op → JobList
@@ -673,6 +674,7 @@ def step (s : JobList) : Op → JobList
   | .addJob pid st => (s.add { pid := pid, state := st }).2
   | .reportOne i => s.reportOne i
   | .ajs pid r i name => (addJobIfSuspended s pid r i name).2
+  | .removeIfFirst k p r => (s.removeIfS (firstK p.eval) k r).2
 
 def run (s : JobList) (ops : List Op) : JobList := ops.foldl step s
 
